@@ -25,4 +25,16 @@ CHECKS = {
    technique="TLA+ spec PmtTypes: TLC-emitted predicate table for all 256 stream types and 4096 Dolby Vision strings compared exhaustively; TLC trace validation of every descriptor decoder on all tags x bodies",
    text="Stream-type predicates and descriptor decoders are specified from the standards' field layouts; the 256-code table and the profile x level codec strings are compared exhaustively, and all 256 tags x generated bodies are run through every decoder with each result validated by TLC (neutral values for foreign tags included).",
    note=TB),
+ "C16": dict(level="model_checking", design_ref="DESIGN.md 4/C16",
+   technique="TLA+ spec Sync: declarative First(s) + read/unread/peek loop state machine, TLC refinement check on all short streams; TLC trace validation of packet.Sync on all streams <= 6 bytes over a 5-symbol alphabet and random long streams through 4 reader kinds",
+   text="The search loop is modelled as a TLA+ state machine and shown by TLC to refine the declarative 'first plausible header' on every stream of bounded length; the real Sync is run on the same bounded-exhaustive stream set and on random streams dense in false sync bytes, and TLC validates offset, reader position and the not-found error for every call.",
+   note=TB),
+ "C17": dict(level="model_checking", design_ref="DESIGN.md 4/C17",
+   technique="TLA+ spec Accumulator (one action per call): TLC exhaustive over histories to depth 4-5 with history-derived invariants; stateful TLC trace validation of random WritePacket/Reset histories on the real accumulator",
+   text="C17 is restated as invariants over the recorded call history and model-checked for all bounded histories and predicates; random histories on the real accumulator (all packet shapes, threshold and failing predicates, scribbling over inputs and returned slices) are validated step by step, the spec state being carried along each history.",
+   note=TB),
+ "C18": dict(level="model_checking", design_ref="DESIGN.md 4/C18",
+   technique="TLA+ spec PacketWriter: declarative ExpectWrite/ExpectReadFrom + read-loop state machine, TLC refinement over all fragmentations/error placements/failing positions at scaled packet size; TLC trace validation of the four real adapters",
+   text="Every fragmentation of short streams into reader results (incl. data returned with EOF or with a failure) and every failing write position is explored on the loop model against the declarative expectation; the real adapters are driven with scripted readers/writers and each recorded delivery list, result class and byte count is validated by TLC.",
+   note=TB),
 }
